@@ -458,7 +458,7 @@ def call_impl(it):
         return {"err": type(e).__name__, "msg": str(e)[:200]}
 
 
-def history_on_output(res, it, rng):
+def history_on_output(res, it, rng, other=None):
     """Histories on ONE output object: evaluate, evaluate again, change the unit costs of its input IN PLACE, evaluate
     again.  Each evaluation must be the recount under the costs in force at that moment (state cached on the output
     or keyed by the input shows here and nowhere else).  Returns False after a violation."""
@@ -470,7 +470,7 @@ def history_on_output(res, it, rng):
             build_output(case, sol, ordered=(mode == "ordered"))
     except Exception:  # noqa
         return True
-    other = rand_costs(rng)
+    other = rand_costs(rng) if other is None else other
     for step, costs in (("first evaluation", full_costs(case)), ("second evaluation of the same object", full_costs(case)),
                         ("after the costs were changed in place", other),
                         ("after the costs were changed back in place", full_costs(case))):
@@ -823,6 +823,14 @@ def replay(ctx, data):
     r = Result()
     if inp.get("cli"):
         judge_cli(ctx, r, {"case": inp["case"], "algo": inp["algo"], "policy": inp["policy"]})
+    elif inp.get("history"):
+        # an evaluation history on one output object: replay the recorded cost change
+        case = dict(inp["case"], costs=dict(inp["history"][0]))
+        history_on_output(r, {"case": case, "sol": inp["sol"], "mode": inp["mode"],
+                              "float_inf": inp.get("float_inf", False)}, None, other=dict(inp["history"][1]))
+        if r.concrete:
+            return False, "still fails: " + r.concrete[0]["what"]
+        return True, "ok: property holds on this history"
     else:
         judge(ctx, r, [{"case": inp["case"], "sol": inp["sol"], "mode": inp["mode"],
                         "float_inf": inp.get("float_inf", False)}])
